@@ -35,7 +35,7 @@ ASSUMPTIONS = [
     "KS tests at alpha = 1e-7 per coordinate (<= 24 coordinates x ~100 cases per run)",
     "displacement == zeta*delta*scaling is compared with relative tolerance 1e-12 (the step converts through momenta)",
     "no constraints are attached (the statement's 'absent constraints')",
-    "coordinates with 0 < |gamma| < 1e-9 are at rounding level: only the bound and termination clauses are checked there (observed: the sampler is biased by a few percent at |gamma| ~ 1e-15 because exp(g)-exp(-g) cancels; outside the stated density domain)",
+    "coordinates with 0 < |gamma| < 1e-11 are at rounding level: only the bound and termination clauses are checked there (observed: the sampler is biased by a few percent at |gamma| ~ 1e-15 because exp(g)-exp(-g) cancels; outside the stated density domain)",
 ]
 LEVEL_TEXT = (
     "Bounded exploration of the force/temperature/delta/mass domain including overflow-scale forces, with hard per-step predicates and a goodness-of-fit test "
@@ -44,7 +44,7 @@ LEVEL_TEXT = (
 LEVEL_NOTE = "Trusted: the closed-form CDF derived from the published trial probability (normalisation checked analytically), scipy.stats.kstest."
 DESIGN_REF = "DESIGN.md section 3, C13"
 
-GAMMAS = [0.0, 1e-3, -1e-3, 0.05, -0.05, 0.3, -0.3, 1.0, -1.0, 3.0, -3.0, 10.0, -10.0, 30.0, -30.0, 700.0, -700.0, 720.0, -720.0, 1e4, -1e6, 1e6]
+GAMMAS = [0.0, 1e-10, -2e-9, 4e-9, 1e-6, -1e-6, 1e-3, -1e-3, 0.05, -0.05, 0.3, -0.3, 1.0, -1.0, 3.0, -3.0, 10.0, -10.0, 30.0, -30.0, 700.0, -700.0, 720.0, -720.0, 1e4, -1e6, 1e6]
 
 
 def cdf(z, g):
@@ -90,6 +90,8 @@ def case_st(draw, density=False):
         # the adaptive driver recomputes a per-coordinate delta before every step (bound part only)
         "adaptive": (not density) and draw(st.integers(0, 3)) == 0,
         "new_masses": [draw(fl(1, 200)) for _ in range(n)],
+        # update_masses(masses): scaling masses of the user's choice, different from the atoms' own (else the atoms' masses are re-read)
+        "remass_custom": draw(st.booleans()),
         # forces so large that F*delta/2kT itself overflows a double (still finite forces): [i, j, value]
         "huge": [[draw(st.integers(0, n - 1)), draw(st.integers(0, 2)), draw(st.sampled_from([1e300, -1e300, 1e307, -1e307, 1.5e308, -1.5e308, 1.7976931348623157e308]))]
                  for _ in range(draw(st.sampled_from([0, 0, 1, 2])))],
@@ -184,8 +186,12 @@ def run_case(case):
             warnings.simplefilter("ignore")
             for istep in range(case["steps"]):
                 if case.get("remass_at") is not None and istep == case["remass_at"]:
-                    atoms.set_masses(case["new_masses"])
-                    mc.update_masses()
+                    if case.get("remass_custom"):
+                        mc.update_masses(np.array(case["new_masses"], dtype=float)[:, None] * np.ones((1, 3)))
+                        out["labels"] = sorted(set(out["labels"]) | {"scaling-masses-differ-from-atoms"})
+                    else:
+                        atoms.set_masses(case["new_masses"])
+                        mc.update_masses()
                     m2 = np.array(case["new_masses"], dtype=float)[:, None] * np.ones((1, 3))
                     scaling = np.power(m2.min() / m2, pexp)
                     bound = np.abs(delta * scaling)
@@ -234,7 +240,7 @@ def run_case(case):
             for j in range(3):
                 g = gam[i, j]
                 s = zs[:, i, j]
-                if 0 < abs(g) < 1e-9:
+                if 0 < abs(g) < 1e-11:
                     # at rounding level the statement makes no distributional claim (neither exactly zero nor above rounding)
                     out["labels"] = sorted(set(out["labels"]) | {"rounding-level-gamma-skipped"})
                     continue
